@@ -19,12 +19,15 @@ use anyhow::Result;
 use colored::*;
 use peginator::PrettyParseError;
 
-use crate::{generate_source_header, grammar::Grammar, CodegenGrammar, CodegenSettings};
+use crate::{
+    generate_source_header, grammar::Grammar, header::generate_prefix_header, CodegenGrammar,
+    CodegenSettings,
+};
 
 /// Compiles peginator grammars into rust code with a builder interface.
 ///
 /// It only recompiles files if it detects (based on the generated file header in the `.rs` file)
-/// change in either the peginator library, or the grammar file.
+/// change in either the peginator library, the grammar file or the prefix.
 ///
 /// It is meant to be used as `peginator_codegen::Compile`, hence the generic name.
 ///
@@ -142,7 +145,11 @@ impl Compile {
 
     fn run_on_single_file(&self, source: &PathBuf, destination: &PathBuf) -> Result<()> {
         let grammar = fs::read_to_string(source)?;
-        let source_header = format!("{}\n{}", generate_source_header(&grammar), self.prefix);
+        let source_header = format!(
+            "{}{}",
+            generate_source_header(&grammar),
+            generate_prefix_header(&self.prefix)
+        );
         if let Ok(f) = File::open(destination) {
             let mut existing_header = String::new();
             if f.take(source_header.len() as u64)
@@ -157,8 +164,9 @@ impl Compile {
         let parsed_grammar = Grammar::from_str(&grammar)
             .map_err(|err| PrettyParseError::from_parse_error(&err, &grammar, source.to_str()))?;
         let generated_code = format!(
-            "{}\n{}",
+            "{}\n{}\n{}",
             source_header,
+            self.prefix,
             parsed_grammar.generate_code(&self.settings)?
         );
         fs::write(destination, generated_code)?;
